@@ -52,8 +52,13 @@ def real_shape(obj, key=None):
             subs.append(real_shape(obj.data[k], k))
         return {"k": "record", "key": key if key is not None else obj.name, "sub": subs}
     if isinstance(obj, var.Array):
-        elem = generate(obj.item_decriptor)
-        return {"k": "array", "key": key if key is not None else obj.name, "sub": [real_shape(elem)]}
+        # the element structure as the first, second and third element of the open list get it: all must be the documented one
+        shapes = [real_shape(generate(obj.item_decriptor)) for _ in range(3)]
+        sub = shapes[0]
+        for later in shapes[1:]:
+            if later != shapes[0]:
+                sub = dict(later, later_element_differs=True)
+        return {"k": "array", "key": key if key is not None else obj.name, "sub": [sub]}
     name = getattr(obj, "name", type(obj).__name__)
     return {"k": "item", "key": key if key is not None else name, "sub": []}
 
@@ -69,9 +74,10 @@ def norm(s):
 
 def norm_inner(s, parent_kind):
     # the element of an open list has no key of its own
+    extra = {"later_element_differs": True} if s.get("later_element_differs") else {}
     if parent_kind == "array":
-        return {"k": s["k"], "key": "*", "sub": [norm_inner(x, s["k"]) for x in s["sub"]]}
-    return {"k": s["k"], "key": s["key"], "sub": [norm_inner(x, s["k"]) for x in s["sub"]]}
+        return dict({"k": s["k"], "key": "*", "sub": [norm_inner(x, s["k"]) for x in s["sub"]]}, **extra)
+    return dict({"k": s["k"], "key": s["key"], "sub": [norm_inner(x, s["k"]) for x in s["sub"]]}, **extra)
 
 
 def top(s):
